@@ -272,6 +272,8 @@ class FG:
         # results may write, per class; registers only loads may write; all readable value parameters
         self.CR = {'i': [], 'f': [], 'd': []}
         self.LD = []
+        self.LDP = [rn for t, rn in args if t == 'ld']   # long double parameters (never written)
+        self.pending_ld = []
         self.RP = []
         self.force_cr = False
         self.ent = None             # name of the re-entry counter parameter: the body starts with a label
@@ -1104,7 +1106,54 @@ class FG:
             return self.src32(allow_mem=r.random() < 0.3)
         if ty in ('f', 'd'):
             return self.fsrc(ty, allow_mem=r.random() < 0.3)
+        if ty == 'ld':
+            return self.ld_value()
         raise ValueError(ty)
+
+    def ld_value(self):
+        """a long double register for an argument / result: one of this function's own long double
+        parameters passed on, or a fresh value made from any int64 (exact: 64 bits of significand) or from an
+        integer-valued double"""
+        r = self.rng
+        if self.LDP and r.random() < 0.3:
+            self.p.features.add('ld:param-passed-on')
+            return R(r.choice(self.LDP))
+        l = R(self.new_local('la', 'ld'))
+        if r.random() < 0.7 or not self.DR or not self.opts.get('fp', True):
+            self.emit('i2ld', l, self.X_())
+        else:
+            t, d = R(self.new_local('lt')), R(self.new_local('ldd', 'd'))
+            self.emit('and', t, self.X_(), Imm(r.choice([0xff, 0xffffff, 0xffffffffffff])))
+            self.emit('i2d', d, t)
+            self.emit('d2ld', l, d)
+        return l
+
+    def use_ld(self, l, observe=0.5):
+        """what a long double register holds becomes an integer of the body (and is shown outside)"""
+        r = self.rng
+        if r.random() < 0.2:
+            l2 = R(self.new_local('la', 'ld'))
+            self.emit('ldmov', l2, l); l = l2
+        t = R(self.new_local('lt'))
+        if r.random() < 0.3 and self.DR and self.opts.get('fp', True):
+            d = R(self.new_local('ldd', 'd'))
+            self.emit('ld2d', d, l)
+            self.emit('dmov', R(r.choice(self.DR)), d)
+            self.emit('ld2i', t, l)
+        else:
+            self.emit('ld2i', t, l)
+        if r.random() < observe:
+            self.emit('call', Ref('p_exv'), Ref('exv'), t, t)
+        if self.X: self.emit(r.choice(['xor', 'add']), self.X_(), self.X_(), t)
+
+    def flush_ld(self):
+        for l in self.pending_ld: self.use_ld(l)
+        self.pending_ld = []
+
+    def g_ld_param(self):
+        if not self.LDP: return self.g_alu64()
+        self.use_ld(R(self.rng.choice(self.LDP)), observe=0.3)
+        self.p.features.add('ld:param-read')
 
     def res_dsts(self, tys):
         # results are extended to 64 bits at the boundary; destinations pairwise distinct (the order
@@ -1119,11 +1168,14 @@ class FG:
                 out.append(R(fs[nf])); nf += 1
             elif t == 'd':
                 out.append(R(ds[nd])); nd += 1
+            elif t == 'ld':
+                l = R(self.new_local('la', 'ld'))
+                out.append(l); self.pending_ld.append(l)
             else:
                 out.append(R(ints[i]))
         # parameters of this function that only call results write (any result position, several at once)
         cls = lambda t: t if t in ('f', 'd') else 'i'
-        pos = [i for i, t in enumerate(tys) if self.CR[cls(t)]]
+        pos = [i for i, t in enumerate(tys) if t != 'ld' and self.CR[cls(t)]]
         if pos:
             forced = self.rng.choice(pos) if self.force_cr else None
             used = set()
@@ -1170,7 +1222,7 @@ class FG:
         if not self.callees: return self.g_call_ext()
         cs = self.callees
         if self.force_cr:
-            cs = [c for c in cs if any(self.CR[t if t in ('f', 'd') else 'i'] for t in c['res'])]
+            cs = [c for c in cs if any(t != 'ld' and self.CR[t if t in ('f', 'd') else 'i'] for t in c['res'])]
             if not cs: return self.g_call_ext()
         # a function nobody calls is never run (and never inlined): prefer callees without a call site so far
         called = self.p.__dict__.setdefault('called', set())
@@ -1203,7 +1255,9 @@ class FG:
                 ops.append(self.arg_for(t))
         code = 'inline' if r.random() < self.opts.get('p_inline', 0.4) else 'call'
         self.emit(code, *ops)
+        self.flush_ld()
         called.add(c['name'])
+        if 'ld' in c['args']: self.p.features.add(code + ':ld-arg')
         if r.random() < self.opts.get('p_observe_call', 0.25):
             # the caller shows the outside world what its registers hold after the call: the registers it
             # passed as arguments (the callee works on copies) and the ones that received results
@@ -1248,6 +1302,7 @@ class FG:
                 ops.append(Mem(t, 0, rn) if t.startswith(('blk', 'rblk')) else R(rn))
             else: ops.append(self.arg_for(t))
         self.emit('call', *ops)
+        self.flush_ld()
         self.place(lskip)
         self.p.features.add('call:recursive')
 
@@ -1260,6 +1315,8 @@ class FG:
                  (self.g_call_mir, self.opts.get('w_call', 4)), (self.g_self_call, 1)]
         if self.LD or any(self.CR.values()):
             kinds.append((self.g_param_write, self.opts.get('w_param_write', 8)))
+        if self.LDP:
+            kinds.append((self.g_ld_param, 6))
         if self.opts.get('fp', True) and self.FR:
             kinds += [(self.g_farith, 8), (self.g_fcmp, 6), (self.g_fconv, 4), (self.g_fmov, 4), (self.g_fbranch, 4)]
         tot = sum(w for _, w in kinds)
@@ -1368,6 +1425,8 @@ class FG:
                 ops.append(self.X_() if r.random() < 0.85 else Imm(self.imm_val()))
             elif t in ('f', 'd'):
                 ops.append(self.fsrc(t, allow_mem=False))
+            elif t == 'ld':
+                ops.append(self.ld_value())
             else:
                 ops.append(self.src32(allow_mem=False))
         self.emit('ret', *ops)
@@ -1501,6 +1560,7 @@ class FG:
                 self.emit('mov', R(wn), Imm(self.imm_val()))
         fargs = [rn for t, rn in f.args if t == 'f']
         dargs = [rn for t, rn in f.args if t == 'd']
+        ld_first = [rn for rn in self.LDP if r.random() < 0.8]
         for n in self.FR:
             if fargs and r.random() < 0.5: self.emit('fmov', R(n), R(r.choice(fargs)))
             elif int_args and r.random() < 0.3: self.emit('i2f', R(n), R(r.choice(int_args)))
@@ -1537,6 +1597,8 @@ class FG:
                 self.emit('call', Ref('p_ex0'), Ref('ex0'), R(on))
             self.O.append(on)
         self.apply_param_modes()
+        for rn in ld_first:
+            self.use_ld(R(rn), observe=0.6)
         if self.O and r.random() >= self.opts.get('p_constbr', 0.0):
             # a loop bound the optimiser cannot know (a known one lets GVN fold the exit test)
             self.emit('and', R('fuel'), R(r.choice(self.O)), Imm(3))
@@ -1830,9 +1892,30 @@ def gen_program(rng, opts=None):
                 else:
                     ptrs[len(args)] = (sizes[k], k != 2)
                     args.append((rng.choice(['i64', 'p']), 'b%d' % i))
-            nia = rng.randrange(0, 5) if rng.random() >= o.get('p_many_args', 0.15) else rng.randrange(6, 10)
-            for i in range(nia):
-                args.append((rng.choice(INT_TYPES + ['i64', 'i32'] + (['f', 'd'] if fp and nia < 6 else [])), 'a%d' % i))
+            if fp and rng.random() < o.get('p_wide_sig', 0.25):
+                # parameters of every type in every position: 0..12 integer, 0..10 FP and 0..3 long double ones in
+                # a random order (6 integer and 8 FP ones travel in registers, the rest - and every long double,
+                # 16 bytes, 16-byte aligned - on the stack behind an odd or even number of 8-byte words)
+                seq = [rng.choice(INT_TYPES + ['i64', 'i32']) for _ in range(max(0, rng.randrange(0, 13) - len(args)))] + \
+                      [rng.choice(['f', 'd', 'd']) for _ in range(rng.choice([0, 0, 1, 2, 3, 5, 8, 9, 10]))] + \
+                      ['ld'] * rng.choice([0, 1, 1, 1, 2, 3])
+                rng.shuffle(seq)
+                if rng.random() < 0.5:
+                    # a long double right behind the register arguments: k stack words before it
+                    lds = [t for t in seq if t == 'ld']; rest = [t for t in seq if t != 'ld']
+                    rest.sort(key=lambda t: t in ('f', 'd')) if rng.random() < 0.5 else None
+                    seq = rest
+                    for _ in lds: seq.insert(rng.randrange(min(len(seq), 6), len(seq) + 1), 'ld')
+                for i, t in enumerate(seq):
+                    args.append((t, 'a%d' % i))
+                if 'ld' in seq: p.features.add('sig:ld-param')
+                p.features.add('sig:wide')
+                if len(res) < 3 and rng.random() < 0.3:
+                    res.append('ld'); p.features.add('sig:ld-result')
+            else:
+                nia = rng.randrange(0, 5) if rng.random() >= o.get('p_many_args', 0.15) else rng.randrange(6, 10)
+                for i in range(nia):
+                    args.append((rng.choice(INT_TYPES + ['i64', 'i32'] + (['f', 'd'] if fp and nia < 6 else [])), 'a%d' % i))
             selfinfo = None
             if rng.random() < 0.35:
                 args.append(('i64', 'depth'))
